@@ -1465,6 +1465,14 @@ class Circuit(Unitary, StateVectorMap, Collection[Operation]):
             self.insert(cycle_index, op)
             return
 
+        # Fix the cycle once: the number of cycles changes as we insert
+        if cycle_index < 0:
+            cycle_index = max(self.num_cycles + cycle_index, 0)
+
+        if cycle_index >= self.num_cycles:
+            self.append_circuit(circuit, location)
+            return
+
         for op in reversed(circuit):
             mapped_location = [location[q] for q in op.location]
             self.insert(
